@@ -57,6 +57,60 @@ CHECKS = {
         "histories longer than the depth bound, trajectories other than the "
         "4-pose grid fixture.",
         "DESIGN.md 4/C08"),
+    "C13": (
+        "E1-enum",
+        "exhaustive enumeration of result lists on the real merge_results, "
+        "and of evo_res file selections through the real CLI",
+        "All lists of 1..3 results over 45+ result types (statistic values, "
+        "array lengths incl. empty, both key insertion orders, missing/extra "
+        "key), all chains of 4 (thorough: 6) over a reduced alphabet: mean of "
+        "statistics, element-wise mean vs concatenation in input order, info "
+        "of the first, identity for a single result, refusal of key "
+        "mismatches, inputs bitwise unchanged, no aliasing. evo_res "
+        "--save_table for every ordered selection of 1..3 result files x "
+        "use_filenames x merge: CSV rows/labels/values, duplicate labels "
+        "refused.",
+        "Trusted: the predicate in mc/checks/c13.py, csv parsing. Not covered: "
+        "lists longer than the bound, result files other than the three APE "
+        "fixtures.",
+        "DESIGN.md 4/C13"),
+    "C16": (
+        "E2-hist",
+        "purity table (bit-exact argument snapshots) + explicit-state BFS "
+        "over derive/mutate histories of a heap of trajectory objects",
+        "Part A: 40+ table entries covering every public computing, plotting "
+        "and writing function x {path, trajectory} x both storage modes x "
+        "{nothing cached, all cached}, with bit-exact snapshots of every "
+        "argument object before/after. Part B: all histories up to depth 3 "
+        "(thorough 4) of derive (copy, associate, 4 splits, merge, DataFrame "
+        "round trip) and mutate (transform, scale, 2 projections, reduce, "
+        "motion filter, 2 alignments, reads) operations on a heap of up to 3 "
+        "objects; after every step every other object is bitwise unchanged "
+        "and internally consistent; the state includes the buffer-sharing "
+        "graph.",
+        "Trusted: snapshots through deepcopy; np.shares_memory for the "
+        "aliasing graph. Not covered: heaps > 3 objects, depth beyond bound.",
+        "DESIGN.md 4/C16"),
+    "C19": (
+        "E3-vfs",
+        "exhaustive crash-point / torn-write enumeration and exhaustive "
+        "interleaving exploration of the real settings code on a virtual FS",
+        "The real module body of settings.py and the real reset / set_config "
+        "/ merge_json_union run as virtual processes (one thread each, baton "
+        "scheduler) over an in-memory POSIX-like FS wrapped by Python's real "
+        "buffering layers. Every primitive boundary and torn-write prefix of "
+        "first start, upgrade, reset, subset reset, set and merge is a crash "
+        "point followed by a fresh start; every interleaving of two "
+        "concurrent processes (start/start on empty and outdated homes, "
+        "set+start, reset+start; thorough: +kill, 3 starts) is explored with "
+        "state-hash pruning. Invariant in every state: settings.json absent "
+        "or complete JSON; no started process fails; finished processes see "
+        "all default keys.",
+        "Trusted: the VFS model (atomic primitives, inode semantics, process "
+        "kill loses user-space buffers); CPython refcount-driven flush of "
+        "un-closed files. Not covered: power loss / block-level reordering, "
+        "more than 3 processes.",
+        "DESIGN.md 4/C19"),
 }
 
 NOT_YET = {
